@@ -89,7 +89,9 @@ at the top-level directory.
 #ifdef SLU_VERIF_HOOKS
 /* Verification event hooks (off by default): kind 1 = zero pivot reported,
    2 = ILU pivot replaced by fill tolerance, 3 = ILU MILU diagonal replaced,
-   4 = storage grown inside the caller's workspace (a = 1 if the stack head passed the tail) */
+   4 = storage grown inside the caller's workspace (a = 1 if the stack head passed the tail),
+   5 = layout of the four growable arrays inside the caller's workspace after a growth in flight (a = 1 if out of order,
+       overlapping or beyond the stack head) */
 extern void slu_verif_event(int kind, int a, int b);
 #define SLU_VERIF_EVENT(k,a,b) slu_verif_event((k),(a),(b))
 /* lets a verification harness choose the initial capacities of lusup, ucol/usub and lsub in ?LUMemInit
